@@ -107,12 +107,13 @@ theorem programProg_spec (cfg : Cfg) (fuel : Nat) (e : Expr) (s : St) (hI : Inv 
 
 theorem Inv_empty : Inv {} :=
   ⟨fun e env p h => by simp at h,
-   ⟨fun t x h => by simp at h, fun f fn h => by simp at h, fun o ob h => by simp at h⟩⟩
+   ⟨fun t x h => by simp at h, fun f fn h => by simp at h, fun o ob h => by simp at h⟩,
+   fun o ob h => by simp at h⟩
 
 /-- `Evaluator::eval` failing: putting the thunks in progress back to pending keeps the store well
     scoped -/
 theorem Inv.restore {st : St} (h : Inv st) : Inv (restoreInProgress st) := by
-  refine ⟨h.wf, ⟨?_, h.g.funcs, ?_⟩⟩
+  refine ⟨h.wf, ⟨?_, h.g.funcs, ?_⟩, ?_⟩
   · intro t x hx
     simp only [restoreInProgress, Array.getElem?_map, Option.map_eq_some_iff] at hx
     obtain ⟨y, hy, rfl⟩ := hx
@@ -122,6 +123,11 @@ theorem Inv.restore {st : St} (h : Inv st) : Inv (restoreInProgress st) := by
     simp only [restoreInProgress, Array.getElem?_map, Option.map_eq_some_iff] at hx
     obtain ⟨y, hy, rfl⟩ := hx
     have := h.g.objs o y hy l
+    split at hl <;> exact this hl
+  · intro o ob hx l hl
+    simp only [restoreInProgress, Array.getElem?_map, Option.map_eq_some_iff] at hx
+    obtain ⟨y, hy, rfl⟩ := hx
+    have := h.shape o y hy l
     split at hl <;> exact this hl
 
 end Rsj.Eval.Scope
